@@ -125,7 +125,7 @@ func Analyze(criteria *measurev1.QueryRequest, metadata []*commonv1.Metadata, ss
 	if limitParameter == 0 {
 		limitParameter = defaultLimit
 	}
-	pushedLimit := int(limitParameter + criteria.GetOffset())
+	pushedLimit := int(limitParameter) + int(criteria.GetOffset())
 
 	if criteria.GetGroupBy() != nil {
 		plan = newUnresolvedGroupBy(plan, groupByTags, groupByEntity)
@@ -185,7 +185,7 @@ func DistributedAnalyze(criteria *measurev1.QueryRequest, ss []logical.Schema, b
 	if limitParameter == 0 {
 		limitParameter = defaultLimit
 	}
-	pushedLimit := int(limitParameter + criteria.GetOffset())
+	pushedLimit := int(limitParameter) + int(criteria.GetOffset())
 
 	if criteria.GetGroupBy() != nil {
 		plan = newUnresolvedGroupBy(plan, groupByTags, false)
